@@ -55,13 +55,13 @@ CHECKS["C09"] = (MC,
 _fr = "trusted: TLC; spec/Framing.tla (reference RFC 9112 request framing written from the RFC text, with explicit freedom exactly where the property statement leaves a choice); the synchronous driver (real server object, parser, channel on fake sockets); streams are generated by the harness (grammar sentences, tables of malformed variants, byte-level mutations), judged one by one by TLC"
 _ft = "TLA+ reference transducer (Framing.tla) evaluated by TLC on every executed stream (batch trace validation); segmentation enumeration on the implementation"
 CHECKS["C01"] = (MC,
-    "Every stream of the corpus (sentences of the request grammar with all three body framings, trailers, chunk extensions, obs-fold, absolute/origin/asterisk targets; pipelines; trailing partial messages and garbage; tables of ambiguous or malformed framing headers, chunk syntax, header-section and request-line near-misses; single-byte replacement/deletion/duplication at every position of the framing-critical sentences) is fed to the real server in one piece, byte-at-a-time and under sampled cuts; TLC walks the recorded outcome (application calls with method, target, body; error responses; closure) against the reference framing function Msg of Framing.tla: each delivered message must be what RFC 9112 extracts at that position, faulty framing must be refused (or, where allowed, processed and then closed), and the byte after one message starts the next.",
-    "DESIGN.md 3.1, 6 (C01)", _fr, _ft)
+    "Every stream of the corpus (sentences of the request grammar with all three body framings, trailers, chunk extensions, obs-fold, absolute/origin/asterisk targets; pipelines; trailing partial messages and garbage; tables of ambiguous or malformed framing headers, chunk syntax, header-section and request-line near-misses; single-byte replacement/deletion/duplication at every position of the framing-critical sentences) is fed to the real server in one piece, byte-at-a-time and under sampled cuts; TLC walks the recorded outcome (application calls with method, target, body; error responses; closure) against the reference framing function Msg of Framing.tla: each delivered message must be what RFC 9112 extracts at that position, faulty framing must be refused (or, where allowed, processed and then closed), and the byte after one message starts the next. In addition the chunked decoder is transcribed into TLA+ (ReceiverOps.tla): TLC feeds a corpus of chunked bodies and near-misses to the transcription under every segmentation and checks the outcome against the grammar of Framing.tla; the transcription is bound to waitress.receiver.ChunkedReceiver by step-by-step trace validation (attributes after every read).",
+    "DESIGN.md 3.1, 6 (C01)", _fr, _ft + "; TLC model checking of the transcribed decoder (Receiver.tla) + step-by-step trace validation of the real decoder against it")
 CHECKS["C02"] = (MC,
-    "For every stream of the corpus (incl. streams whose header/body limit is crossed at -1/0/+1) the real server is run under one-piece delivery, byte-at-a-time, every single cut and random k-cuts, one representative per sentence family also under up to 400 pairs of cuts; TLC requires every distinct outcome to conform to Framing.tla (which has no notion of read boundaries) and to equal the one-piece outcome.",
-    "DESIGN.md 6 (C02)", _fr, _ft)
+    "For every stream of the corpus (incl. streams whose header/body limit is crossed at -1/0/+1) the real server is run under one-piece delivery, byte-at-a-time, every single cut and random k-cuts, one representative per sentence family also under up to 400 pairs of cuts; TLC requires every distinct outcome to conform to Framing.tla (which has no notion of read boundaries) and to equal the one-piece outcome. ALL 2^(n-1) segmentations are explored by TLC on the transcriptions of the incremental code - ChunkedReceiver.received (ReceiverOps.tla / Receiver.tla) and HTTPRequestParser.received (ParserOps.tla / Parser.tla: head buffering, blank-line search across reads, limit accounting, hand-over to the receivers) - with the invariant that outcome, body and bytes consumed equal those of the uncut input; the transcriptions are bound to the real objects by step-by-step trace validation (every attribute after every read).",
+    "DESIGN.md 6 (C02)", _fr, _ft + "; TLC model checking of the transcribed incremental parser and decoder under every segmentation (Parser.tla, Receiver.tla) + step-by-step trace validation of the real objects against them")
 CHECKS["C06"] = (MC,
-    "The corpus under a sweep of max_request_header_size / max_request_body_size (tiny, size-1/size/size+1, defaults) and pumped sentences (each repeatable grammar position x10, x100, x1000) judged by TLC with Framing.tla: a message that reaches a limit or is malformed is never delivered, gets exactly one error response out of 400/413/431/501 fitting the fault, is followed by closure, and the server stops consuming. Totality (no exception, no hang - a watchdog interrupts code that does not return -, bounded consumption) is observed on all of these and on pumped sentences of 10^4..10^5 bytes. The refusal is also explored under concurrency (scheduler) with the Pipeline monitor.",
+    "The corpus under a sweep of max_request_header_size / max_request_body_size (tiny, size-1/size/size+1, defaults) and pumped sentences (each repeatable grammar position x10, x100, x1000) judged by TLC with Framing.tla: a message that reaches a limit or is malformed is never delivered, gets exactly one error response out of 400/413/431/501 fitting the fault, is followed by closure, and the server stops consuming. Totality (no exception, no hang - a watchdog interrupts code that does not return -, bounded consumption) is observed on all of these and on pumped sentences of 10^4..10^5 bytes. The refusal is also explored under concurrency (scheduler) with the Pipeline monitor. On the transcription of HTTPRequestParser.received (Parser.tla) TLC checks under every segmentation that a head not finished within max_request_header_size is refused with 431 and that the byte count never passes the limit unnoticed; the transcription is bound to the real parser step by step.",
     "DESIGN.md 6 (C06)", _fr + "; 'never raises / never hangs' is observed, not proved", _ft + "; watchdog for hangs; scheduler exploration for the refusal under concurrency")
 
 CHECKS["C07"] = (MC,
